@@ -99,6 +99,7 @@ func runC20(c *Ctx) {
 			}
 			nMethods++
 			checkSetMethod(c, p, fn, spec[1])
+			checkReturnedSetUsable(c, p, fn, spec[1])
 			if m.Name() == "Equal" {
 				checkSetEqual(c, p, fn, spec[1])
 			}
@@ -1091,4 +1092,85 @@ func checkSetPredicateLeaves(c *Ctx, p *core.Prog, fn *ssa.Function, typ string)
 	c.R.Check(bad == "" && n > 0, "R20.12", typ+".Equal decides by membership and size", p.Pos(fn.Pos()),
 		fmt.Sprintf("%d return(s): constants, map look-ups, sizes, predicates of the package", n),
 		"what Equal returns is computed from "+bad+", not from membership tests: a value built out of the elements (a joined or formatted rendering) does not tell apart sets whose elements contain the separator")
+}
+
+// checkReturnedSetUsable: R20.15. A set that an operation returns is a set like any other: its map is allocated, so that the
+// caller can insert into it. A result built as a composite literal gets its map stored before every return (the store
+// dominates the return), or the result comes from a constructor of the package.
+func checkReturnedSetUsable(c *Ctx, p *core.Prog, fn *ssa.Function, typ string) {
+	res := fn.Signature.Results()
+	if res.Len() != 1 {
+		return
+	}
+	pt, ok := res.At(0).Type().(*types.Pointer)
+	if !ok {
+		return
+	}
+	nm, ok := pt.Elem().(*types.Named)
+	if !ok || nm.Obj().Name() != typ {
+		return
+	}
+	st, _ := nm.Underlying().(*types.Struct)
+	if st == nil {
+		return
+	}
+	mapField := -1
+	for i := 0; i < st.NumFields(); i++ {
+		if _, isMap := st.Field(i).Type().Underlying().(*types.Map); isMap {
+			mapField = i
+		}
+	}
+	if mapField < 0 {
+		return
+	}
+	bad := ""
+	nR := 0
+	for _, b := range fn.Blocks {
+		ret, isRet := b.Instrs[len(b.Instrs)-1].(*ssa.Return)
+		if !isRet {
+			continue
+		}
+		var check func(v ssa.Value, d int)
+		check = func(v ssa.Value, d int) {
+			v = core.Unspill(v)
+			switch x := v.(type) {
+			case *ssa.Phi:
+				if d < 3 {
+					for _, e := range x.Edges {
+						check(e, d+1)
+					}
+				}
+			case *ssa.Alloc:
+				nR++
+				okStore := false
+				for _, r := range *x.Referrers() {
+					fa, isFA := r.(*ssa.FieldAddr)
+					if !isFA || fa.Field != mapField {
+						continue
+					}
+					for _, u := range *fa.Referrers() {
+						if s2, isSt := u.(*ssa.Store); isSt && s2.Addr == ssa.Value(fa) {
+							if k, isK := s2.Val.(*ssa.Const); isK && k.IsNil() {
+								continue
+							}
+							if s2.Block() == b || s2.Block().Dominates(b) {
+								okStore = true
+							}
+						}
+					}
+				}
+				if !okStore && bad == "" {
+					bad = "the " + typ + " literal at " + p.Pos(x.Pos()) + " reaches the return at " + p.Pos(ret.Pos()) + " on a path that stores no map into it"
+				}
+			}
+		}
+		if len(ret.Results) == 1 {
+			check(ret.Results[0], 0)
+		}
+	}
+	if nR == 0 {
+		return
+	}
+	c.R.Check(bad == "", "R20.15", typ+"."+fn.Name()+": the set it returns has its map allocated", p.Pos(fn.Pos()), fmt.Sprintf("%d composite literal(s) returned, each with a map stored on every path", nR),
+		bad+": the result is a set with a nil map - reading it works, the first Insert into it (or an operation that fills it, like Unique) panics with assignment to entry in nil map")
 }
